@@ -432,7 +432,10 @@ func substVar(body, name, with string) string {
 func skolemHint(lines []string, goalNeg string) (extra []string, newGoal string) {
 	newGoal = goalNeg
 	st, en, name, sort, body, ok := findForallP(goalNeg, 0, "(forall ((")
-	if !ok || st != 0 || strings.Contains(body, "(forall ") || strings.Contains(body, "(exists ") {
+	if !ok {
+		return skolemHint2(lines, goalNeg)
+	}
+	if st != 0 || strings.Contains(body, "(forall ") || strings.Contains(body, "(exists ") {
 		return nil, goalNeg
 	}
 	if strings.HasPrefix(body, "(! ") {
@@ -442,12 +445,13 @@ func skolemHint(lines []string, goalNeg string) (extra []string, newGoal string)
 	extra = append(extra, fmt.Sprintf("(declare-fun %s () %s)", sk, sort))
 	newGoal = goalNeg[:st] + substVar(body, name, sk) + goalNeg[en:]
 	n := 0
-	for _, l := range lines {
+	for li := len(lines) - 1; li >= 0; li-- { // latest hypotheses first: they describe the state the goal is about
+		l := lines[li]
 		if !strings.HasPrefix(l, "(assert ") {
 			continue
 		}
 		pos := 0
-		for n < 60 {
+		for n < 120 {
 			s2, e2, nm, so, bd, ok := findForall(l, pos)
 			if !ok {
 				break
@@ -458,6 +462,166 @@ func skolemHint(lines []string, goalNeg string) (extra []string, newGoal string)
 			}
 			extra = append(extra, l[:s2]+substVar(bd, nm, sk)+l[e2:])
 			n++
+			if sort == "Int" && strings.Contains(bd, "(+ (s.off ") {
+				// sequences after a removal / insertion: the neighbour as well
+				extra = append(extra, l[:s2]+substVar(bd, nm, "(+ "+sk+" 1)")+l[e2:])
+				n++
+			}
+		}
+	}
+	if sort == "Int" {
+		// hypotheses over two integers (sorted, duplicate-free, ...) at the pairs built from the constant, its
+		// successor and the ground slice indices of the VC (e.g. the position a loop stopped at)
+		cands := []string{sk, "(+ " + sk + " 1)"}
+		seen := map[string]bool{}
+		for _, l := range append(append([]string{}, lines...), goalNeg) {
+			if strings.Contains(l, "(forall ") || len(cands) >= 10 {
+				continue
+			}
+			for _, m := range reOffIdx.FindAllStringSubmatch(l, -1) {
+				if strings.HasPrefix(m[2], "bv$") || seen[m[2]] || len(cands) >= 10 {
+					continue
+				}
+				seen[m[2]] = true
+				cands = append(cands, m[2])
+			}
+		}
+		n2 := 0
+		for _, l := range lines {
+			if !strings.HasPrefix(l, "(assert ") || !strings.Contains(l, "(forall ((bv$") {
+				continue
+			}
+			pos := 0
+			for n2 < 300 {
+				s2, e2, nm2, so2, bd2, ok2 := findForall2(l, pos)
+				if !ok2 {
+					break
+				}
+				pos = e2
+				if so2[0] != "Int" || so2[1] != "Int" || strings.Contains(bd2, "(forall ") {
+					continue
+				}
+				for _, a := range cands {
+					for _, b := range cands {
+						extra = append(extra, l[:s2]+substVar(substVar(bd2, nm2[0], a), nm2[1], b)+l[e2:])
+						n2++
+					}
+				}
+			}
+		}
+	}
+	return extra, newGoal
+}
+
+// findForall2 parses "(forall ((a S) (b S)) body)" with exactly two bound variables at s[from:].
+func findForall2(s string, from int) (st, en int, names, sorts [2]string, body string, ok bool) {
+	i := strings.Index(s[from:], "(forall ((")
+	if i < 0 {
+		return
+	}
+	i += from
+	p := i + len("(forall (")
+	for k := 0; k < 2; k++ {
+		if p >= len(s) || s[p] != '(' {
+			return
+		}
+		e := balancedTerm(s, p)
+		f := strings.SplitN(s[p+1:e-1], " ", 2)
+		if len(f) != 2 {
+			return
+		}
+		names[k], sorts[k] = f[0], f[1]
+		p = e
+		if k == 0 {
+			if p >= len(s) || s[p] != ' ' {
+				return
+			}
+			p++
+		}
+	}
+	if p >= len(s) || s[p] != ')' {
+		return // more than two variables
+	}
+	p++
+	if p >= len(s) || s[p] != ' ' {
+		return
+	}
+	be := balancedTerm(s, p+1)
+	if be >= len(s) || s[be] != ')' {
+		return
+	}
+	return i, be + 1, names, sorts, s[p+1 : be], true
+}
+
+// skolemHint2: a goal quantified over two integer variables (typically "sorted": forall i < j) is proved for
+// two fresh constants; hypotheses quantified over one or two integers are instantiated at those constants
+// and their successors (the index shifts that removals and insertions in a sequence produce). Sound:
+// instances of hypotheses.
+func skolemHint2(lines []string, goalNeg string) (extra []string, newGoal string) {
+	st, en, names, sorts, body, ok := findForall2(goalNeg, 0)
+	if !ok || st != 0 || sorts[0] != "Int" || sorts[1] != "Int" || strings.Contains(body, "(forall ") || strings.Contains(body, "(exists ") || strings.HasPrefix(body, "(! ") {
+		return nil, goalNeg
+	}
+	var sk [2]string
+	for k := 0; k < 2; k++ {
+		sk[k] = "sk$" + strings.NewReplacer("bv$", "", "$", "_").Replace(names[k])
+		extra = append(extra, fmt.Sprintf("(declare-fun %s () Int)", sk[k]))
+	}
+	newGoal = goalNeg[:st] + substVar(substVar(body, names[0], sk[0]), names[1], sk[1]) + goalNeg[en:]
+	cands := []string{sk[0], sk[1], "(+ " + sk[0] + " 1)", "(+ " + sk[1] + " 1)"}
+	n := 0
+	// the exact pair for every hypothesis first (latest hypotheses first: they describe the state the goal is
+	// about), the shifted pairs afterwards while the budget lasts
+	for li := len(lines) - 1; li >= 0; li-- {
+		l := lines[li]
+		if !strings.HasPrefix(l, "(assert ") || !strings.Contains(l, "(forall ((bv$") {
+			continue
+		}
+		pos := 0
+		for {
+			s2, e2, nm2, so2, bd2, ok2 := findForall2(l, pos)
+			if !ok2 {
+				break
+			}
+			pos = e2
+			if so2[0] != "Int" || so2[1] != "Int" || !strings.HasPrefix(nm2[0], "bv$") || strings.Contains(bd2, "(forall ") {
+				continue
+			}
+			extra = append(extra, l[:s2]+substVar(substVar(bd2, nm2[0], sk[0]), nm2[1], sk[1])+l[e2:])
+		}
+	}
+	for li := len(lines) - 1; li >= 0; li-- {
+		l := lines[li]
+		if !strings.HasPrefix(l, "(assert ") || !strings.Contains(l, "(forall ((bv$") {
+			continue
+		}
+		pos := 0
+		for n < 400 {
+			if s2, e2, nm2, so2, bd2, ok2 := findForall2(l, pos); ok2 && so2[0] == "Int" && so2[1] == "Int" && strings.HasPrefix(nm2[0], "bv$") && (func() bool { s1, _, _, _, _, ok1 := findForall(l, pos); return !ok1 || s1 >= s2 })() {
+				pos = e2
+				if strings.Contains(bd2, "(forall ") {
+					continue
+				}
+				for _, a := range cands {
+					for _, b := range cands {
+						extra = append(extra, l[:s2]+substVar(substVar(bd2, nm2[0], a), nm2[1], b)+l[e2:])
+						n++
+					}
+				}
+				continue
+			}
+			s2, e2, nm, so, bd, ok1 := findForall(l, pos)
+			if !ok1 {
+				break
+			}
+			pos = e2
+			if so != "Int" || strings.Contains(bd, "(forall ") {
+				continue
+			}
+			for _, a := range cands {
+				extra = append(extra, l[:s2]+substVar(bd, nm, a)+l[e2:])
+				n++
+			}
 		}
 	}
 	return extra, newGoal
@@ -726,6 +890,83 @@ func reOffIdxVar(bd, v string) bool {
 	return false
 }
 
+// akHints: the axioms of append / copy are quantified over absolute array indices (variable ak). They are
+// instantiated at the absolute indices (+ (s.off R) X) that occur in the (skolemized) goal or in its skolem
+// instances. Sound: instances of hypotheses.
+func akHints(lines []string, texts []string) []string {
+	var idx []string
+	seen := map[string]bool{}
+	for _, text := range texts {
+		pos := 0
+		for {
+			k := strings.Index(text[pos:], "(+ (s.off ")
+			if k < 0 {
+				break
+			}
+			k += pos
+			pos = k + 3
+			e := balancedTerm(text, k)
+			term := text[k:e]
+			if !strings.Contains(term, "sk$") || strings.Contains(term, "bv$") || seen[term] || len(idx) >= 12 {
+				continue
+			}
+			seen[term] = true
+			idx = append(idx, term)
+		}
+	}
+	if len(idx) == 0 {
+		return nil
+	}
+	var out []string
+	for _, l := range lines {
+		if !strings.HasPrefix(l, "(assert ") || !strings.Contains(l, "(forall ((ak Int))") {
+			continue
+		}
+		s2, e2, nm, _, bd, ok := findForallP(l, 0, "(forall ((ak ")
+		if !ok {
+			continue
+		}
+		if strings.HasPrefix(bd, "(! ") {
+			// strip the pattern annotation: (! body :pattern (...))
+			be := balancedTerm(bd, 3)
+			bd = bd[3:be]
+		}
+		for _, g := range idx {
+			out = append(out, l[:s2]+substVar(bd, nm, g)+l[e2:])
+		}
+	}
+	return out
+}
+
+// hoistForall: a goal of the shape (=> A (=> B (forall ...))) - the quantifier in positive position at the
+// end of a chain of implications whose antecedents do not bind it - is split into the chain prefix
+// "(=> A (=> B " and the quantified formula, which can then be proved for fresh constants.
+func hoistForall(goal string) (prefix, quant string, ok bool) {
+	p := 0
+	depth := 0
+	for {
+		if strings.HasPrefix(goal[p:], "(forall ((") {
+			e := balancedTerm(goal, p)
+			if strings.Trim(goal[e:], ")") != "" || len(goal)-e != depth {
+				return "", "", false
+			}
+			return goal[:p], goal[p:e], true
+		}
+		if !strings.HasPrefix(goal[p:], "(=> ") {
+			return "", "", false
+		}
+		a := balancedTerm(goal, p+4)
+		if a >= len(goal) || goal[a] != ' ' {
+			return "", "", false
+		}
+		if strings.Contains(goal[p+4:a], "bv$") && strings.Contains(goal[p+4:a], "(forall ") {
+			// quantified antecedent: fine, it is closed
+		}
+		p = a + 1
+		depth++
+	}
+}
+
 func onlyImplicationPrefix(p string) bool {
 	// "(assert (=> A (=> B " : every open paren group before the tail is an implication whose antecedent is closed
 	p = strings.TrimSpace(p)
@@ -872,13 +1113,16 @@ func (t *FnTrans) assemble(o *Obligation) string {
 	}
 	if o.Expect == "sat" {
 		b.WriteString("(assert " + o.Goal + ")\n")
-	} else if strings.HasPrefix(o.Goal, "(forall ((") {
-		// goal: guard => forall x. body   ~~>   refute  guard /\ not body[sk]
-		extra, g := skolemHint(t.lines[:o.NLines], o.Goal)
+	} else if pre, q, ok := hoistForall(o.Goal); ok {
+		// goal: guard => (A => (B => forall x. body))   ~~>   refute  guard /\ A /\ B /\ not body[sk]
+		extra, g := skolemHint(t.lines[:o.NLines], q)
 		for _, e := range extra {
 			b.WriteString(e + "\n")
 		}
-		b.WriteString("(assert (not " + implies(o.Guard, g) + "))\n")
+		for _, e := range akHints(t.lines[:o.NLines], append([]string{g}, extra...)) {
+			b.WriteString(e + "\n")
+		}
+		b.WriteString("(assert (not " + implies(o.Guard, pre+g+strings.Repeat(")", strings.Count(pre, "(=> "))) + "))\n")
 	} else {
 		b.WriteString("(assert (not " + implies(o.Guard, o.Goal) + "))\n")
 	}
